@@ -11,6 +11,7 @@ property on the observable output only.
 """
 import json
 import math
+import os
 import re
 import warnings
 
@@ -55,14 +56,18 @@ def rand_rot(rng):
     return np.eye(3) + math.sin(ang) * K + (1 - math.cos(ang)) * (K @ K)
 
 
-def gen_points(rng, n):
-    """n points on a smooth, gently turning base curve, sampled with uneven spacing, in a random frame."""
+def gen_points(rng, n, mild=False):
+    """n points on a smooth, gently turning base curve, sampled with uneven spacing, in a random frame.
+    mild: spacing ratio at most 2.5 (a spline through strongly uneven points with evenly spaced parameters
+    overshoots and nearly touches itself; closest-parameter queries are then ill-posed)"""
     scale = 10 ** rng.uniform(-2, 2)
     w = rng.uniform(0.3, 2.0)
     a = rng.uniform(0.1, 0.6)
     b = rng.uniform(-0.4, 0.4)
     phi = rng.uniform(0, 2 * math.pi)
     gaps = [rng.uniform(1, 8) if rng.random() < 0.5 else rng.uniform(0.15, 1) for _ in range(n - 1)]
+    if mild:
+        gaps = [rng.uniform(1, 2.5) for _ in range(n - 1)]
     s = np.concatenate(([0.0], np.cumsum(gaps)))
     s = s / s[-1]
     base = np.array([[si, a * math.sin(w * si + phi), b * si * si] for si in s])
@@ -78,7 +83,12 @@ def gen_spec(rng, kind):
     if kind == "linear":
         return dict(kind=kind, points=gen_points(rng, rng.randint(3, 8)), equalize=rng.random() < 0.7)
     if kind == "spline":
-        return dict(kind=kind, points=gen_points(rng, rng.randint(4, 8)), equalize=rng.random() < 0.7)
+        eq = rng.random() < 0.7
+        return dict(kind=kind, points=gen_points(rng, rng.randint(4, 8), mild=not eq), equalize=eq)
+    if kind == "zigzag":
+        # a polyline through unrelated random points: it turns sharply and comes close to itself
+        pts = [[rng.uniform(-4, 4) for _ in range(3)] for _ in range(rng.randint(4, 8))]
+        return dict(kind="linear", points=pts, equalize=True, zigzag=True)
     scale = 10 ** rng.uniform(-2, 2)
     if kind == "line":
         p1 = [rng.uniform(-1, 1) * scale for _ in range(3)]
@@ -151,32 +161,62 @@ def extent_of(curve, spec):
 
 
 def observed_counts(curve):
-    """number of samples of the coarse stage and of AnalyticCurve.get_length, read from the implementation"""
+    """number of samples of the coarse stage and of AnalyticCurve.get_length, read from the implementation's behaviour
+    (n_len is None for curves whose length is not a polyline through a discretisation of the whole range)"""
     coarse = len(curve.discretize())
-    rec = []
-    orig = curve.discretize
-
-    def spy(*a, **k):
-        out = orig(*a, **k)
-        rec.append(len(out))
-        return out
-
     n_len = None
-    if type(curve).get_length is _cb().AnalyticCurve.get_length:
+    if isinstance(curve, _cb().AnalyticCurve):
+        lo, hi = curve.bounds[0], curve.bounds[1]
+        rec = []
+        orig = curve.discretize
+
+        def spy(*a, **k):
+            out = orig(*a, **k)
+            rec.append(len(out))
+            return out
+
         curve.discretize = spy
         try:
-            curve.get_length(curve.bounds[0], curve.bounds[1])
+            L = float(curve.get_length(lo, hi))
         finally:
             del curve.discretize
-        if len(rec) != 1:
-            raise RuntimeError("AnalyticCurve.get_length does not discretize exactly once")
-        n_len = rec[0]
+
+        def fits(n):
+            pts = np.asarray(curve.discretize(lo, hi, n))
+            ref = float(np.sum(np.sqrt(np.sum((pts[1:] - pts[:-1]) ** 2, axis=1))))
+            return len(pts) == n and abs(ref - L) <= 1e-12 * max(abs(L), 1e-300)
+
+        cands = [n for n in dict.fromkeys(rec + [100, 50, 200, 500, 1000] + list(range(2, 400))) if n >= 2]
+        for n in cands:
+            if fits(n):
+                n_len = n
+                break
+        if n_len is None:
+            raise RuntimeError("AnalyticCurve.get_length is not the polyline through a discretisation of the range")
     return coarse, n_len
 
 
+def closest_with_start(curve, q):
+    """(result of get_closest_param, start value handed to scipy.optimize.minimize, or None if it was not called once)"""
+    import scipy.optimize as so
+    rec = []
+    orig = so.minimize
+
+    def spy(fun, x0, *a, **k):
+        rec.append(float(np.atleast_1d(x0)[0]))
+        return orig(fun, x0, *a, **k)
+
+    so.minimize = spy
+    try:
+        r = curve.get_closest_param(q)
+    finally:
+        so.minimize = orig
+    return r, (rec[0] if len(rec) == 1 else None)
+
+
 def coarse_param(curve, q):
-    from classy_blocks.construct.curves.curve import CurveBase
-    return float(CurveBase.get_closest_param(curve, q))
+    """result of the coarse stage of the search = the start value of the minimiser (observed, not re-implemented)"""
+    return closest_with_start(curve, q)[1]
 
 
 def make_edge(curve, v1, v2, n_points, representation):
@@ -329,6 +369,25 @@ def dense_min(curve, q, n=1500):
     return ds2[j], float(ts2[j])
 
 
+def param_of(curve, p, lo, hi, n=300):
+    """(parameter in [lo, hi] whose curve point is nearest to p, that distance): dense sampling, then a bounded scalar
+    minimisation around the best sample (independent of the library's get_closest_param)"""
+    import scipy.optimize
+    if hi - lo < 1e-12:
+        return lo, float(np.linalg.norm(curve.get_point(lo) - p))
+    ts = np.linspace(lo, hi, n)
+    ds = [float(np.linalg.norm(curve.get_point(float(t)) - p)) for t in ts]
+    i = int(np.argmin(ds))
+    a, b = float(ts[max(i - 1, 0)]), float(ts[min(i + 1, n - 1)])
+    r = scipy.optimize.minimize_scalar(lambda t: float(np.linalg.norm(curve.get_point(min(max(float(t), a), b)) - p)),
+                                       bounds=(a, b), method="bounded", options=dict(xatol=1e-12 * max(1.0, abs(hi))))
+    t = min(max(float(r.x), a), b)
+    d = float(np.linalg.norm(curve.get_point(t) - p))
+    if ds[i] < d:
+        t, d = float(ts[i]), ds[i]
+    return t, d
+
+
 def oracle_case(case):
     """Returns None or a string saying how the property fails on the implementation's output."""
     spec = case["spec"]
@@ -424,6 +483,12 @@ def oracle_case(case):
         if case["near"]:
             dd, td = dense_min(curve, q)
             if not d <= dd + 1e-4 * ext:
+                t0 = coarse_param(curve, q)
+                spacing = (float(curve.bounds[1]) - float(curve.bounds[0])) / max(len(cs) - 1, 1)
+                if t0 is not None and abs(t0 - td) > 1.5 * spacing:
+                    return ("closest parameter misses the nearest part of the curve: the coarse sample nearest to the query lies on "
+                            "another part of the curve (coarse t=%r, nearest point at t=%r); result %r at distance %.9g, nearest %.9g"
+                            % (t0, td, res, d, dd))
                 return "closest parameter %r at distance %.9g, dense sample t=%r at %.9g" % (res, d, td, dd)
         return None
     if op == "edge":
@@ -448,9 +513,10 @@ def oracle_case(case):
             if len(pts) != case["n_points"]:
                 return "edge has %d points instead of %d" % (len(pts), case["n_points"])
             last = None
+            tparams = []
             for j, p in enumerate(pts):
-                tj = float(curve.get_closest_param(p))
-                dj = float(np.linalg.norm(curve.get_point(tj) - p))
+                tj, dj = param_of(curve, p, lo, hi)
+                tparams.append(tj)
                 if not dj <= 1e-4 * ext:
                     return "edge point %d is %.3g away from the curve" % (j, dj)
                 if not (lo - 1e-4 <= tj <= hi + 1e-4):
@@ -460,7 +526,7 @@ def oracle_case(case):
                 last = tj
             # not the end points themselves, evenly spread in the parameter
             if len(pts) and abs(pe - ps) > 1e-6:
-                t0 = float(curve.get_closest_param(pts[0]))
+                t0 = tparams[0]
                 if not abs((t0 - ps) - (pe - ps) / (len(pts) + 1)) <= 1e-3 * abs(pe - ps) + 1e-4:
                     return "first edge point has parameter %r, expected %r" % (t0, ps + (pe - ps) / (len(pts) + 1))
         for w, p in zip(ob["written"], pts):
@@ -503,6 +569,14 @@ def gen_cases(rng, cc):
     """list of cases (dicts) for one curve"""
     spec, curve, kind = cc.spec, cc.curve, cc.kind
     ext = extent_of(curve, spec)
+    if spec.get("zigzag"):
+        # queries on the curve itself (at its knots), where the coarse stage of the search is put to the test
+        cases = [dict(op="point"), dict(op="length", a=cc.lo, m=float(rng.choice(cc.ts[1:-1])), b=cc.hi, full=True)]
+        for i in rng.sample(range(len(cc.pts)), min(3, len(cc.pts))):
+            cases.append(dict(op="closest", q=fl(cc.pts[i]), near=True, extent=ext))
+        for c in cases:
+            c["spec"] = spec
+        return cases
     cases = [dict(op="point")]
     for _ in range(2):
         cases.append(dict(op="pointat", t=rand_param(rng, cc)))
@@ -684,7 +758,7 @@ def case_checks(cc, case, res, rng):
         return qs, rs
     if op == "closest":
         q = np.array(case["q"])
-        r = curve.get_closest_param(q)
+        r, t0 = (curve.get_closest_param(q), None) if kind == "discrete" else closest_with_start(curve, q)
         QQ, RQ = QV(q), V(q)
         if kind == "discrete":
             ds = sorted(float(np.linalg.norm(np.array(x) - q)) for x in cc.pts)
@@ -692,7 +766,15 @@ def case_checks(cc, case, res, rng):
                 raise Boundary()
             return ["Nat.eqb (qclosest_idx %spts %s) %d" % (p, QQ, int(r))], []
         r = float(r)
-        t0 = coarse_param(curve, q)
+        d9, d4 = 1e-9 * case["extent"], 1e-4 * case["extent"]
+        if t0 is None:
+            # the search does not start scipy.optimize.minimize exactly once (rewritten?): only the result is judged
+            res.count("closest: start value not observable")
+            qs.append("Qle_bool %s %s && Qle_bool %s %s" % (Q(cc.lo), Q(r), Q(r), Q(cc.hi)))
+            if kind == "line":
+                qs.append("qnot_farther %s (%s %s) %s (qd2 (%s (qline_topt %sp1 %sp2 %s %s %s)) %s)"
+                          % (Q(d4), cc.FQ, Q(r), QQ, cc.FQ, p, p, Q(cc.lo), Q(cc.hi), QQ, QQ))
+            return qs, rs
         cnt = cc.n_coarse
         lin = np.linspace(cc.lo, cc.hi, cnt)
         k = int(np.argmin(np.abs(lin - t0)))
@@ -707,13 +789,12 @@ def case_checks(cc, case, res, rng):
         qs.append("qabs_le (qlin_at %s %s %d %d - %s) %s" % (Q(cc.lo), Q(cc.hi), cnt, k, Q(t0), Q(ptol(cc.lo, cc.hi))))
         # the minimiser assumption, monitored: inside the bounds, not farther than its start point
         qs.append("Qle_bool %s %s && Qle_bool %s %s" % (Q(cc.lo), Q(r), Q(r), Q(cc.hi)))
-        d9, d4 = 1e-9 * case["extent"], 1e-4 * case["extent"]
         if trans:
             conj = []
             for j in sorted({k, rng.randint(0, cnt - 1)}):
                 conj.append("dist (%s (lin_at %s %s %d %d)) %s <= %s" % (cc.F, R(cc.lo), R(cc.hi), cnt, j, V(cs[j]), rtol))
             conj.append("dist (%s %s) %s <= dist (%s %s) %s + %s" % (cc.F, R(r), RQ, cc.F, R(t0), RQ, R(d9)))
-            # certificate of global optimality (Proofs: circle_lb_le)
+            # certificate of global optimality (C16_closest_circle: circle_lb is a lower bound of the squared distance)
             if kind == "circle" and case["near"] and cc.lo + 1e-3 < r < cc.hi - 1e-3:
                 conj.append("circle_defect %so %srim %sk %s %s <= %s" % (p, p, p, RQ, R(r), R(d4)))
             rs.append(conj)
@@ -725,11 +806,12 @@ def case_checks(cc, case, res, rng):
         else:
             qs.append("qclose_list %s (map %s (qlinspace %s %s %d)) %s" % (tol, cc.FQ, Q(cc.lo), Q(cc.hi), cnt, QVL(cs)))
             qs.append("qnot_farther %s (%s %s) %s (qd2 (%s %s) %s)" % (Q(d9), cc.FQ, Q(r), QQ, cc.FQ, Q(t0), QQ))
-            # certificates of global optimality (Proofs: qline_topt / qpl_mind2 are the exact minimisers)
+            # certificates of global optimality (C16_closest_line, C16_closest_linear)
             if kind == "line":
                 qs.append("qnot_farther %s (%s %s) %s (qd2 (%s (qline_topt %sp1 %sp2 %s %s %s)) %s)"
                           % (Q(d4), cc.FQ, Q(r), QQ, cc.FQ, p, p, Q(cc.lo), Q(cc.hi), QQ, QQ))
-            if kind == "linear" and case["near"]:
+            if kind == "linear" and case["near"] and not cc.spec.get("zigzag"):
+                # (on a zig-zag curve global optimality is the oracle's business: a wrong branch is a known finding)
                 qs.append("match qpl_mind2 %spts %s with Some m2 => qnot_farther %s (%s %s) %s m2 | None => false end"
                           % (p, QQ, Q(d4), cc.FQ, Q(r), QQ))
         return qs, rs
@@ -775,7 +857,7 @@ def parse_id_list(so):
     body = m.group(1).strip()
     if not body:
         return []
-    return [int(x.strip().strip("()")) for x in body.replace("\n", " ").split(";")]
+    return [int(re.sub(r"[()%Z\s]", "", x)) for x in body.split(";")]
 
 
 SUB = 64  # obligation id = case id * SUB + index of the obligation within the case
@@ -785,7 +867,7 @@ class C16(Prop):
     pid = "C16"
     title = "Curve points, lengths and closest-parameter queries are mutually consistent"
     prebuilt = ["Base/Vec3.v", "Model/C16_Curves.v", "Model/C16_CurvesQ.v", "Proofs/C16_Curves.v", "Proofs/C16_Length.v",
-                "Proofs/C16_QSound.v"]
+                "Proofs/C16_Edge.v", "Proofs/C16_QSound.v", "Proofs/C16_Closest.v"]
     gen_dependent_files = []
     property_files = ["Properties/C16.v"]
     trusted = [
@@ -802,13 +884,18 @@ class C16(Prop):
         "the lemmas of Proofs/C16_QSound.v; the per-case results themselves are correspondence evidence, not theorems",
     ]
     partial = [
-        "C16_closest_dense_partial: proved = the result is at least as close as every coarse sample given the minimiser "
-        "assumption (and the discrete curve's argmin is exact); missing = optimality against every point of an arbitrary "
-        "(spline/analytic) curve, which depends on scipy's minimiser (validated against a dense sample, certified per case "
-        "for line, circle and linear-interpolated curves)",
+        "C16_closest_dense_partial: proved = the result is at least as close as every coarse sample for every minimiser "
+        "that does not return a point farther than its start (and the discrete curve's argmin is exact, "
+        "C16_closest_discrete; the optimum of a line curve is proved, C16_closest_line, and certified per case); missing = "
+        "optimality against every point of an arbitrary (spline/analytic) curve, which depends on scipy's minimiser "
+        "(validated against a dense sample; certified per case with proved bounds for line, linear-interpolated and "
+        "circle curves: C16_closest_line, C16_closest_linear, C16_closest_circle - the latter for an exactly unit normal, "
+        "the implementation's is unit within 1e-12, checked)",
         "C16_interpolates: the spline half rests on the interpolation assumption for make_interp_spline (monitored)",
         "C16_length_additive: additivity of the spline length holds for splits at knots only (chords through the knots); "
         "for analytic curves the 100-chord length is additive up to the discretisation error only (validated)",
+        "C16_corr_sound: covers the evaluators of points, parameters, knots, slices, argmin, point and length comparisons; "
+        "not covered: qchord_ok (chord-length parameters; qpl_mind2 is covered by C16_closest_linear)",
     ]
 
     def correspond(self, ctx):
@@ -823,8 +910,9 @@ class C16(Prop):
         all_cases = []  # (gid, cc, case)
         ccs = []
         gid = 0
-        for k in range(ncurves):
-            kind = KINDS[k % len(KINDS)]
+        nzig = ctx.n(8, 60)
+        for k in range(ncurves + nzig):
+            kind = KINDS[k % len(KINDS)] if k < ncurves else "zigzag"
             spec = gen_spec(ctx.rng, kind)
             try:
                 curve = build(spec)
@@ -837,13 +925,30 @@ class C16(Prop):
             for case in gen_cases(ctx.rng, cc):
                 all_cases.append((gid, cc, case))
                 gid += 1
+        # corpus first: stored cases are judged by the direct oracle
+        cdir = os.path.join(core.VERIF, "corpus", "C16")
+        for fn in sorted(os.listdir(cdir)) if os.path.isdir(cdir) else []:
+            if not fn.endswith(".json"):
+                continue
+            with open(os.path.join(cdir, fn)) as f:
+                case = json.load(f)
+            case.pop("note", None)
+            res.evaluations += 1
+            res.count("corpus")
+            res.distinct.add(json.dumps(case, sort_keys=True, default=str))
+            why = safe_oracle(case)
+            if why:
+                rp = strip(case)
+                rp["why"] = why
+                rp["corpus"] = fn
+                res.oracle_failures.append(rp)
         # implementation + oracle + obligations
         qob, rob = {}, {}  # curve index -> list of texts
         info = {}
         nq = nr = 0
         for (g, cc, case) in all_cases:
             res.evaluations += 1
-            res.count("kind=" + cc.kind)
+            res.count("kind=" + ("zigzag" if cc.spec.get("zigzag") else cc.kind))
             res.count("op=" + case["op"])
             if case["op"] != "pointat":
                 why = safe_oracle(case)
@@ -911,7 +1016,14 @@ class C16(Prop):
             shards.append(("rcases_%d" % f, "\n".join(text) + "\n", None))
         ok, bad = set(), set()
         ids_of = {name: ids for (name, _t, ids) in shards}
-        for (name, rc, so, se) in core.run_cases_parallel(ctx, [(n, t) for (n, t, _i) in shards], timeout=ctx.n(600, 2400)):
+        results = core.run_cases_parallel(ctx, [(n, t) for (n, t, _i) in shards], timeout=ctx.n(600, 2400))
+        texts = {n: t for (n, t, _i) in shards}
+        for k, (name, rc, so, se) in enumerate(results):
+            if rc != 0 and not se.strip():
+                # killed without a Coq error (memory pressure on a loaded machine): one more try, alone
+                rc, so, se, _cmd = core.run_cases_file(ctx, name, texts[name], timeout=ctx.n(600, 2400))
+                results[k] = (name, rc, so, se)
+        for (name, rc, so, se) in results:
             if rc != 0:
                 res.error = "case file %s failed to compile (rc %d): %s" % (name, rc, se[-800:])
                 return res
@@ -970,11 +1082,13 @@ class C16(Prop):
 
     def signature(self, rp):
         why = rp.get("why", "")
+        if rp.get("op") == "closest" and "lies on another part of the curve" in why:
+            return "C16:closest:coarse-stage-wrong-branch"
         why = re.sub(r"[-+]?\d+\.?\d*(e[-+]?\d+)?", "#", why)
         return "C16:%s:%s:%s" % (rp.get("op"), rp.get("spec", {}).get("kind"), why[:60])
 
     def replay(self, ctx, obj):
-        case = {k: v for k, v in obj.items() if k not in ("why", "signature", "property", "broken_obligations")}
+        case = {k: v for k, v in obj.items() if k not in ("why", "signature", "property", "broken_obligations", "corpus", "note")}
         print("case:", json.dumps({k: v for k, v in case.items() if k != "spec"}))
         print("curve:", json.dumps(case["spec"]))
         try:
